@@ -28,6 +28,8 @@ def run(ctx):
             open(f'{w}/l1.model', 'w').write(''.join(l for l in open(f'{w}/l1.trace') if not l.startswith('#')))
             run_modeld(ctx, 'l1', f'{w}/l1.model', 'l1')
             ctx.evaluations += s['l1_cases'] + s['pp_fault_cases']; ctx.cov['l1'] = {k: v for k, v in s.items() if k not in ('monitor_failures', 'samples')}
+    from checks import C02 as c02mod
+    c02mod.key_tie(ctx, findings, 1500, 1500, own_property=False)
     ctx.rules.append('h_args: command lines built from every entry of the real gcc/clang tables in every disposition (separated, concatenated, delimited, missing value), unknown flags, --, @file, '
                      '-arch repeats, 0-2 inputs, shuffled; 1 in 20 with non-UTF-8 bytes (implementation-only monitor); h_l1: exhaustive decision alphabet; system: edit/flag/language/output/env/restart histories')
     if cargo_repo_bins(ctx, ('sccache', 'sccache-dist')):
